@@ -1,4 +1,389 @@
 import Tfv.Model
+import Tfv.Spec.Sub
+import Tfv.Spec.Taxonomy
+import Tfv.Proofs.SubOrder
+import Tfv.Proofs.Canon
+import Tfv.Proofs.CanonComplete
+import Tfv.Proofs.CanonClosed
+import Tfv.Proofs.CanonLinks
+import Tfv.Proofs.CanonMirror
+import Tfv.Proofs.CanonPlain
+import Tfv.Proofs.CanonAvoid
+import Tfv.Proofs.CanonExamples
+/-!
+# C10 — the type taxonomy: direct successors, the canonical set, reported direct sub/supertype links
+
+Statements only; proofs are one-liners calling lemmas of `Tfv/Proofs/Canon*.lean`.
+
+Vocabulary (`Tfv/Spec/Taxonomy.lean`, `namespace Tfv.Tax`):
+* `tbFree t`: neither `Top` nor `Bottom` occurs in `t`;
+* `Le L up x y`: `Sub L x y` if `up`, `Sub L y x` otherwise;
+* `UnivOK L o`: every member of `o.univ` is an operator of `L` other than `Top`/`Bottom`
+  (`C10_univOK_of_ge5`: index ≥ 5 and `< L.length` suffices; `C10_univ_needed`: it cannot be dropped);
+* `Reach R`: reflexive-transitive closure of `R`;
+* `Step L o up t s`: `s ∈ succT L o up t`; `StepTo L o up goal t u`: such a step to a `Top`/`Bottom`-free,
+  well-formed `u ≠ t` with `Le L up t u` and `Le L up u goal`;
+* `Link L c canon n up t s`: `s ∈ langSucc L c canon n up t false` (a reported direct link);
+* `canonOpts c custom`, `canonSucc L c t`: the options/successors `expandCanon` uses;
+* `Closed L c R`: `R` contains `canonSucc L c t` for each of its members `t`;
+* `expandRun` = `expandCanon` that also returns the remaining work list, `Terminates … ` = that list is empty;
+* `WorkInv L c stack canon`: every member of `canon` is on the stack or has all its successors in
+  `canon ∪ stack` (true at the start of `mkCanon`, where `stack = canon`);
+* `initOf listed`: the start set of `mkCanon` (`Tfv/Proofs/CanonLinks.lean`).
+
+Scope. Soundness (part 1) and the closure of the canon (part 3) hold for all configurations.
+Completeness (parts 2, 4) and mirroring are proved between `Top`/`Bottom`-free types; when neither `Top`
+nor `Bottom` was requested this is the whole canon (`C10_canon_plain_iff`, `C10_reach_iff_plain`,
+`C10_mirror_plain`). With `Top` in the canon completeness fails: `C10_counterexample_reach`.
+
+Running example (`Tfv/Proofs/CanonExamples.lean`, `namespace Tfv.C10Ex`): `exL` = builtins, `A` (5),
+`B < A` (6), `C < B` (7), covariant unary `F` (8); `canonA = mkCanon exL {} [A, F(A)]`,
+`canonT = mkCanon exL {includeTop} [C, F(C)]`.
+-/
 namespace Tfv.C10
-theorem placeholder : True := trivial
+open Tfv Tfv.Tax Tfv.C10Ex
+
+/-! ## 1. soundness of direct successors and reported links -/
+
+/-- Indices `≥ 5` below `L.length` are acceptable `univ` members. -/
+theorem C10_univOK_of_ge5 {L : Lang} {o : SOpts} (h : ∀ u ∈ o.univ, 5 ≤ u ∧ u < L.length) : UnivOK L o :=
+  univOK_of_ge5 h
+
+/-- The options used by `Language.successors` satisfy the `univ` condition. -/
+theorem C10_univOK_langOpts (L : Lang) (c : CanonCfg) : UnivOK L (langOpts L c) :=
+  univOK_langOpts L c
+
+/-- **Direct subtypes are strict subtypes.** In a well-formed language, every type returned by
+`successors(DOWN)` for a well-formed type `t` is a well-formed subtype of `t` different from `t`. -/
+theorem C10_succ_sound_down {L : Lang} (wf : WF L) {o : SOpts} (ok : UnivOK L o) {t s : Ty}
+    (ht : wfTy L t = true) (h : s ∈ succT L o false t) : Sub L s t ∧ s ≠ t ∧ wfTy L s = true :=
+  succT_sound_down wf ok ht h
+
+example : tF tB ∈ succT exL {} false (tF tA) ∧ UnivOK exL {} ∧ wfTy exL (tF tA) = true :=
+  ⟨by simp [show succT exL {} false (tF tA) = [tF tB] from rfl], univOK_nil rfl, wf_tFA⟩
+
+/-- **Direct supertypes are strict supertypes.** -/
+theorem C10_succ_sound_up {L : Lang} (wf : WF L) {o : SOpts} (ok : UnivOK L o) {t s : Ty}
+    (ht : wfTy L t = true) (h : s ∈ succT L o true t) : Sub L t s ∧ s ≠ t ∧ wfTy L s = true :=
+  succT_sound_up wf ok ht h
+
+example : tF tB ∈ succT exL {} true (tF tC) ∧ UnivOK exL {} ∧ wfTy exL (tF tC) = true :=
+  ⟨by simp [show succT exL {} true (tF tC) = [tF tB] from rfl], univOK_nil rfl, wf_tFC⟩
+
+/-- The condition on `univ` cannot be dropped: with `Top` in `univ`, `Top` is returned as a direct
+subtype of itself. -/
+theorem C10_univ_needed : succT exL { univ := [TOP] } false tTop = [tTop] := univ_needed
+
+/-- **Reported links are sound.** Every type reported by `Language.successors` (transitive or not, any
+fuel) for a well-formed `t` is a well-formed canonical type strictly above (`up`) resp. below `t`. -/
+theorem C10_links_sound {L : Lang} (wf : WF L) (c : CanonCfg) (canon : List Ty) (n : Nat) (up : Bool)
+    (t : Ty) (tr : Bool) (r : Ty) (ht : wfTy L t = true) (h : r ∈ langSucc L c canon n up t tr) :
+    Le L up t r ∧ r ≠ t ∧ wfTy L r = true ∧ r ∈ canon :=
+  langSucc_sound wf c canon n up t tr r ht h
+
+example : tF tB ∈ langSucc exL cfg0 canonA 3 false (tF tA) true ∧ wfTy exL (tF tA) = true :=
+  ⟨by simp [show langSucc exL cfg0 canonA 3 false (tF tA) true = [tF tB, tF tC] from rfl], wf_tFA⟩
+
+/-- the same for direct-subtype links, spelled out with `Sub` -/
+theorem C10_links_sound_down {L : Lang} (wf : WF L) (c : CanonCfg) (canon : List Ty) (n : Nat)
+    (t : Ty) (tr : Bool) (r : Ty) (ht : wfTy L t = true) (h : r ∈ langSucc L c canon n false t tr) :
+    Sub L r t ∧ r ≠ t ∧ wfTy L r = true ∧ r ∈ canon :=
+  langSucc_sound_down wf c canon n t tr r ht h
+
+/-- **Reachability is sound.** Whatever is reachable from a well-formed `t` through reported direct links
+lies in the direction of the links; it is `t` itself or a different, canonical type. -/
+theorem C10_reach_sound {L : Lang} (wf : WF L) (c : CanonCfg) (canon : List Ty) (n : Nat) (up : Bool)
+    {t s : Ty} (h : Reach (Link L c canon n up) t s) (ht : wfTy L t = true) :
+    Le L up t s ∧ wfTy L s = true ∧ (s = t ∨ (s ≠ t ∧ s ∈ canon)) :=
+  reach_link_sound wf c canon n up h ht
+
+/-- With at least one link the reached type is a strict sub/supertype. -/
+theorem C10_reach_strict {L : Lang} (wf : WF L) (c : CanonCfg) (canon : List Ty) (n : Nat) (up : Bool)
+    {t u s : Ty} (h1 : Link L c canon n up t u) (h : Reach (Link L c canon n up) u s)
+    (ht : wfTy L t = true) : Le L up t s ∧ s ≠ t ∧ wfTy L s = true ∧ s ∈ canon :=
+  reach_link_strict wf c canon n up h1 h ht
+
+example : Link exL cfg0 canonA 1 false (tF tA) (tF tB) ∧
+    Reach (Link exL cfg0 canonA 1 false) (tF tB) (tF tC) := by
+  refine ⟨?_, reach_one ?_⟩
+  · unfold Link; simp [show langSucc exL cfg0 canonA 1 false (tF tA) false = [tF tB] from rfl]
+  · unfold Link; simp [show langSucc exL cfg0 canonA 1 false (tF tB) false = [tF tC] from rfl]
+
+/-! ## 2. covering steps are complete between `Top`/`Bottom`-free types -/
+
+/-- `childrenOf L p` lists exactly the operators whose declared parent is `p`. -/
+theorem C10_children_iff {L : Lang} {p c : Nat} : c ∈ childrenOf L p ↔ parentOf L c = some p :=
+  mem_childrenOf
+
+/-- **Base types, upwards.** If `b` is a declared ancestor of `a`, then `b` is reachable from `a` by
+`successors(UP)` steps (with `include_custom`). -/
+theorem C10_base_cover_up {L : Lang} (wf : WF L) {o : SOpts} (hc : o.custom = true) {a b : Nat}
+    (h : Anc L a b) : Reach (Step L o true) (.app a []) (.app b []) :=
+  base_cover_up wf hc h
+
+/-- **Base types, downwards.** If `b` is a declared ancestor of `a`, then `a` is reachable from `b` by
+`successors(DOWN)` steps (with `include_custom`). -/
+theorem C10_base_cover_down {L : Lang} (wf : WF L) {o : SOpts} (hc : o.custom = true) {a b : Nat}
+    (h : Anc L a b) : Reach (Step L o false) (.app b []) (.app a []) :=
+  base_cover_down wf hc h
+
+example : Reach (Step exL {} true) tC tA := C10_base_cover_up exWF rfl anc_C_A
+
+/-- **A first covering step exists** (either direction). Between `Top`/`Bottom`-free types `t ≠ s` with
+`s` in direction `up` from `t`, some direct successor `u` of `t` (with `include_custom`) is still on the way
+to `s`, is `Top`/`Bottom`-free and strictly closer to `s` in the measure `gap`. -/
+theorem C10_succ_complete_step_dir {L : Lang} (wf : WF L) {o : SOpts} (hc : o.custom = true) (up : Bool)
+    {t s : Ty} (ht : tbFree t = true) (hs : tbFree s = true) (hle : Le L up t s) (hne : s ≠ t) :
+    ∃ u, u ∈ succT L o up t ∧ Le L up u s ∧ tbFree u = true ∧ gap u s < gap t s :=
+  step_complete wf hc up t s ht hs hle hne
+
+/-- **A first covering step towards a strict subtype exists.** -/
+theorem C10_succ_complete_step {L : Lang} (wf : WF L) {o : SOpts} (hc : o.custom = true)
+    {t s : Ty} (ht : tbFree t = true) (hs : tbFree s = true) (hsub : Sub L s t) (hne : s ≠ t) :
+    ∃ u, u ∈ succT L o false t ∧ Sub L s u ∧ tbFree u = true :=
+  step_complete_down wf hc ht hs hsub hne
+
+example : tbFree (tF tA) = true ∧ tbFree (tF tC) = true ∧ Sub exL (tF tC) (tF tA) ∧ tF tC ≠ tF tA := by
+  refine ⟨tb_tFA, tb_tFC, sub_FC_FA, ?_⟩
+  intro e; injection e with _ e; injection e with e _; injection e with e _; simp at e
+
+/-- **Every `Top`/`Bottom`-free type in direction `up` is reachable by covering steps**, through
+`Top`/`Bottom`-free, well-formed types that all lie between `t` and `s` (see `StepTo`). -/
+theorem C10_reach_complete_tbfree_universe {L : Lang} (wf : WF L) {o : SOpts} (ok : UnivOK L o)
+    (hc : o.custom = true) (up : Bool) {t s : Ty} (hw : wfTy L t = true) (ht : tbFree t = true)
+    (hs : tbFree s = true) (hle : Le L up t s) : Reach (StepTo L o up s) t s :=
+  reach_complete wf ok hc up hw ht hs hle
+
+/-- the downward instance: every `Top`/`Bottom`-free subtype `s` of `t` is reachable from `t` by
+`successors(DOWN)` steps, every intermediate `u` satisfying `Sub L s u`, `Sub L u t`, `tbFree u` -/
+theorem C10_reach_complete_down {L : Lang} (wf : WF L) {o : SOpts} (ok : UnivOK L o)
+    (hc : o.custom = true) {t s : Ty} (hw : wfTy L t = true) (ht : tbFree t = true)
+    (hs : tbFree s = true) (hsub : Sub L s t) : Reach (StepTo L o false s) t s :=
+  reach_complete wf ok hc false hw ht hs (le_down.mpr hsub)
+
+/-- every type on such a path lies between start and goal, is `Top`/`Bottom`-free and well formed -/
+theorem C10_reach_between {L : Lang} (wf : WF L) {o : SOpts} {up : Bool} {goal t x : Ty}
+    (h : Reach (StepTo L o up goal) t x) (hw : wfTy L t = true) (ht : tbFree t = true)
+    (hle : Le L up t goal) : Le L up t x ∧ Le L up x goal ∧ tbFree x = true ∧ wfTy L x = true :=
+  reach_stepTo_between wf h hw ht hle
+
+/-- a type between two `Top`/`Bottom`-free types is `Top`/`Bottom`-free -/
+theorem C10_between_tbFree {L : Lang} (wf : WF L) {m s t : Ty} (hs : tbFree s = true) (ht : tbFree t = true)
+    (h1 : Sub L s m) (h2 : Sub L m t) : tbFree m = true :=
+  between_tbFree wf m s t hs ht h1 h2
+
+/-! ## 3. the canon is closed -/
+
+/-- `expandRun` computes `expandCanon` (and the remaining work list). -/
+theorem C10_expandRun_snd (L : Lang) (c : CanonCfg) (n : Nat) (stack canon : List Ty) :
+    (expandRun L c n stack canon).2 = expandCanon L c n stack canon :=
+  expandRun_snd L c n stack canon
+
+/-- **The expanded canon is closed.** If the fuel sufficed (the work list emptied) and the work-list
+invariant holds at the start, the result contains the start sets and all direct successors
+(`UP` without, `DOWN` with `include_custom`) of each of its members. -/
+theorem C10_expandCanon_closed {L : Lang} {c : CanonCfg} {n : Nat} {stack canon : List Ty}
+    (h : Terminates L c n stack canon) (inv : WorkInv L c stack canon) :
+    (∀ t ∈ canon, t ∈ expandCanon L c n stack canon) ∧ (∀ t ∈ stack, t ∈ expandCanon L c n stack canon) ∧
+      Closed L c (expandCanon L c n stack canon) :=
+  expandCanon_closed h inv
+
+/-- **Fuel independence**: once the work list has emptied, more fuel gives the same canon. -/
+theorem C10_expandCanon_fuel {L : Lang} {c : CanonCfg} {n : Nat} {stack canon : List Ty}
+    (h : Terminates L c n stack canon) (k : Nat) :
+    Terminates L c (n + k) stack canon ∧
+      expandCanon L c (n + k) stack canon = expandCanon L c n stack canon :=
+  expandCanon_fuel h k
+
+/-- closedness, spelled out: downward successors with `include_custom`, upward ones without;
+membership as decided by `memTy` -/
+theorem C10_closed_spelled {L : Lang} {c : CanonCfg} {R : List Ty} (h : Closed L c R) {t s : Ty}
+    (ht : memTy t R = true) :
+    (s ∈ succT L { custom := true, top := c.includeTop, bottom := c.includeBottom } false t →
+      memTy s R = true) ∧
+    (s ∈ succT L { custom := false, top := c.includeTop, bottom := c.includeBottom } true t →
+      memTy s R = true) :=
+  closed_spelled h ht
+
+/-- the invariant holds when `stack = canon` (as in `mkCanon`) … -/
+theorem C10_workInv_self (L : Lang) (c : CanonCfg) (init : List Ty) : WorkInv L c init init :=
+  workInv_self L c init
+
+/-- … and when `canon` is already closed -/
+theorem C10_workInv_of_closed {L : Lang} {c : CanonCfg} {canon : List Ty} (h : Closed L c canon)
+    (stack : List Ty) : WorkInv L c stack canon :=
+  workInv_nil_of_closed h stack
+
+/-- **`mkCanon` is closed and contains the listed types**, provided the fuel sufficed. -/
+theorem C10_mkCanon_closed {L : Lang} {c : CanonCfg} {listed : List Ty}
+    (h : Terminates L c canonFuel (initOf listed) (initOf listed)) :
+    (∀ t ∈ listed, t ∈ mkCanon L c listed) ∧ Closed L c (mkCanon L c listed) :=
+  mkCanon_closed h
+
+example : Terminates exL cfg0 canonFuel (initOf [tA, tF tA]) (initOf [tA, tF tA]) ∧
+    canonA = [tA, tF tA, tF tB, tF tC, tB, tC] := ⟨termA, canonA_eq⟩
+
+/-- **The canon contains every subtype** (first sentence of C10, `Top`/`Bottom`-free part): a closed set
+contains every `Top`/`Bottom`-free subtype of each of its `Top`/`Bottom`-free well-formed members. -/
+theorem C10_canon_contains_subtypes {L : Lang} (wf : WF L) {c : CanonCfg} {R : List Ty} (h : Closed L c R)
+    {t s : Ty} (ht : t ∈ R) (hw : wfTy L t = true) (htb : tbFree t = true) (hsb : tbFree s = true)
+    (hsub : Sub L s t) : s ∈ R :=
+  closed_contains_subtypes wf h ht hw htb hsb hsub
+
+example : tF tC ∈ canonA :=
+  C10_canon_contains_subtypes exWF closedA mem_canonA_FA wf_tFA tb_tFA tb_tFC sub_FC_FA
+
+/-- for `mkCanon`: every `Top`/`Bottom`-free subtype of a listed `Top`/`Bottom`-free type is canonical -/
+theorem C10_mkCanon_contains_subtypes {L : Lang} (wf : WF L) {c : CanonCfg} {listed : List Ty}
+    (term : Terminates L c canonFuel (initOf listed) (initOf listed)) {t s : Ty} (ht : t ∈ listed)
+    (hw : wfTy L t = true) (htb : tbFree t = true) (hsb : tbFree s = true) (hsub : Sub L s t) :
+    s ∈ mkCanon L c listed :=
+  mkCanon_contains_subtypes wf term ht hw htb hsb hsub
+
+/-- **Exact canon without `Top`/`Bottom`.** If neither was requested and the listed types are well-formed
+and `Top`/`Bottom`-free, the canon is exactly the set of `Top`/`Bottom`-free subtypes of listed types:
+no `Bottom`-variants, no `Top`-generalisations. -/
+theorem C10_canon_plain_iff {L : Lang} (wf : WF L) {c : CanonCfg} (hT : c.includeTop = false)
+    (hB : c.includeBottom = false) {listed : List Ty}
+    (hl : ∀ t ∈ listed, wfTy L t = true ∧ tbFree t = true)
+    (term : Terminates L c canonFuel (initOf listed) (initOf listed)) (s : Ty) :
+    s ∈ mkCanon L c listed ↔ (tbFree s = true ∧ ∃ t ∈ listed, Sub L s t) :=
+  mkCanon_plain_iff wf hT hB hl term s
+
+example : ∀ t ∈ [tA, tF tA], wfTy exL t = true ∧ tbFree t = true := by
+  intro t ht
+  simp only [List.mem_cons, List.not_mem_nil, or_false] at ht
+  rcases ht with rfl | rfl
+  · exact ⟨wf_tA, by decide⟩
+  · exact ⟨wf_tFA, tb_tFA⟩
+
+/-- `tbFree` means: avoids `Top` and avoids `Bottom`. -/
+theorem C10_tbFree_iff_avoids (t : Ty) : tbFree t = true ↔ (avoids TOP t = true ∧ avoids BOT t = true) :=
+  tbFree_iff_avoids t
+
+/-- **`Bottom`-variants only when requested**: if `Bottom` was not requested and occurs in no listed type,
+it occurs in no canonical type (any fuel). -/
+theorem C10_canon_no_bottom {L : Lang} (wf : WF L) {c : CanonCfg} (hB : c.includeBottom = false)
+    {listed : List Ty} (hl : ∀ t ∈ listed, avoids BOT t = true) :
+    ∀ s ∈ mkCanon L c listed, avoids BOT s = true :=
+  mkCanon_avoids_bot wf hB hl
+
+example : cfgT.includeBottom = false ∧ (∀ t ∈ [tC, tF tC], avoids BOT t = true) ∧
+    mkCanon exL cfgT [tC, tF tC] = [tC, tF tC, tF tTop, tTop] := by
+  refine ⟨rfl, ?_, rfl⟩
+  intro t ht
+  simp only [List.mem_cons, List.not_mem_nil, or_false] at ht
+  rcases ht with rfl | rfl <;> decide
+
+/-- **`Top`-generalisations only when requested**: if `Top` was not requested and occurs in no listed type,
+it occurs in no canonical type (any fuel). -/
+theorem C10_canon_no_top {L : Lang} (wf : WF L) {c : CanonCfg} (hT : c.includeTop = false)
+    {listed : List Ty} (hl : ∀ t ∈ listed, avoids TOP t = true) :
+    ∀ s ∈ mkCanon L c listed, avoids TOP s = true :=
+  mkCanon_avoids_top wf hT hl
+
+/-- **The result is the least closed set**: any run (terminated or not) stays inside every set that is
+closed under the pushed successors and contains the start sets. -/
+theorem C10_expandCanon_least {L : Lang} {c : CanonCfg} (S : Ty → Prop)
+    (hS : ∀ t, S t → ∀ s ∈ canonSucc L c t, S s) (n : Nat) (stack canon : List Ty)
+    (h1 : ∀ t ∈ canon, S t) (h2 : ∀ t ∈ stack, S t) : ∀ t ∈ expandCanon L c n stack canon, S t :=
+  expandCanon_least S hS n stack canon h1 h2
+
+/-- **The order of the work list is irrelevant**: two terminated runs whose start sets have the same
+members return sets with the same members. -/
+theorem C10_expandCanon_order_irrelevant {L : Lang} {c : CanonCfg} {n1 n2 : Nat}
+    {stack1 canon1 stack2 canon2 : List Ty}
+    (t1 : Terminates L c n1 stack1 canon1) (t2 : Terminates L c n2 stack2 canon2)
+    (i1 : WorkInv L c stack1 canon1) (i2 : WorkInv L c stack2 canon2)
+    (hsame : ∀ t, (t ∈ stack1 ∨ t ∈ canon1) ↔ (t ∈ stack2 ∨ t ∈ canon2)) (t : Ty) :
+    t ∈ expandCanon L c n1 stack1 canon1 ↔ t ∈ expandCanon L c n2 stack2 canon2 :=
+  expandCanon_order_irrelevant t1 t2 i1 i2 hsame t
+
+/-- for `mkCanon`: the order (and multiplicity) of the listed types is irrelevant -/
+theorem C10_mkCanon_order_irrelevant {L : Lang} {c : CanonCfg} {l1 l2 : List Ty}
+    (t1 : Terminates L c canonFuel (initOf l1) (initOf l1))
+    (t2 : Terminates L c canonFuel (initOf l2) (initOf l2))
+    (hsame : ∀ t, t ∈ l1 ↔ t ∈ l2) (t : Ty) : t ∈ mkCanon L c l1 ↔ t ∈ mkCanon L c l2 :=
+  mkCanon_order_irrelevant t1 t2 hsame t
+
+example : Terminates exL cfg0 canonFuel (initOf [tA, tF tA]) (initOf [tA, tF tA]) ∧
+    Terminates exL cfg0 canonFuel (initOf [tF tA, tA]) (initOf [tF tA, tA]) ∧
+    mkCanon exL cfg0 [tF tA, tA] = [tF tA, tA, tB, tC, tF tB, tF tC] := ⟨termA, termA', rfl⟩
+
+/-! ## 4. completeness of links between `Top`/`Bottom`-free canonical types, mirroring -/
+
+/-- **Links are complete** between `Top`/`Bottom`-free types of a closed canon: every `Top`/`Bottom`-free
+subtype `s` of a canonical, well-formed, `Top`/`Bottom`-free `t` is reachable from `t` through reported
+direct-subtype links (`s` is then canonical by `C10_canon_contains_subtypes`). -/
+theorem C10_complete_tbfree {L : Lang} (wf : WF L) {c : CanonCfg} {R : List Ty} (h : Closed L c R) (n : Nat)
+    {t s : Ty} (ht : t ∈ R) (hw : wfTy L t = true) (htb : tbFree t = true) (hsb : tbFree s = true)
+    (hsub : Sub L s t) : Reach (Link L c R (n+1) false) t s :=
+  complete_tbfree wf h n ht hw htb hsb hsub
+
+example : Reach (Link exL cfg0 canonA 1 false) (tF tA) (tF tC) :=
+  C10_complete_tbfree exWF closedA 0 mem_canonA_FA wf_tFA tb_tFA tb_tFC sub_FC_FA
+
+/-- **Reachability = subtyping** between `Top`/`Bottom`-free types of a closed canon. -/
+theorem C10_reach_iff_tbfree {L : Lang} (wf : WF L) {c : CanonCfg} {R : List Ty} (h : Closed L c R) (n : Nat)
+    {t s : Ty} (ht : t ∈ R) (hw : wfTy L t = true) (htb : tbFree t = true) (hsb : tbFree s = true) :
+    Reach (Link L c R (n+1) false) t s ↔ Sub L s t :=
+  reach_iff_tbfree wf h n ht hw htb hsb
+
+/-- **Second sentence of C10 when neither `Top` nor `Bottom` was requested**: among canonical types,
+`s` is reachable from `t` through reported direct-subtype links iff `s` is a subtype of `t`
+(strictly, iff at least one link is used: `C10_reach_strict`). -/
+theorem C10_reach_iff_plain {L : Lang} (wf : WF L) {c : CanonCfg} (hT : c.includeTop = false)
+    (hB : c.includeBottom = false) {listed : List Ty}
+    (hl : ∀ t ∈ listed, wfTy L t = true ∧ tbFree t = true)
+    (term : Terminates L c canonFuel (initOf listed) (initOf listed)) (n : Nat) {s t : Ty}
+    (hs : s ∈ mkCanon L c listed) (ht : t ∈ mkCanon L c listed) :
+    Reach (Link L c (mkCanon L c listed) (n+1) false) t s ↔ Sub L s t :=
+  reach_iff_plain wf hT hB hl term n hs ht
+
+/-- Direct successors mirror each other on `Top`/`Bottom`-free well-formed types (with `include_custom`). -/
+theorem C10_succ_mirror {L : Lang} (wf : WF L) {o : SOpts} (hc : o.custom = true) {t s : Ty}
+    (hwt : wfTy L t = true) (hws : wfTy L s = true) (ht : tbFree t = true) (hs : tbFree s = true) :
+    s ∈ succT L o false t ↔ t ∈ succT L o true s :=
+  succT_mirror_iff wf hc hwt hws ht hs
+
+/-- In a closed canon the direct-subtype links of a `Top`/`Bottom`-free member are exactly its direct
+successors; the one-level look-through is never used. -/
+theorem C10_link_down_iff {L : Lang} {c : CanonCfg} {R : List Ty} (h : Closed L c R) (n : Nat) {t s : Ty}
+    (ht : t ∈ R) (htb : tbFree t = true) :
+    Link L c R (n+1) false t s ↔ s ∈ succT L (canonOpts c true) false t :=
+  link_down_iff h n ht htb
+
+/-- **Links mirror each other** between `Top`/`Bottom`-free well-formed types of a closed canon. -/
+theorem C10_mirror_tbfree {L : Lang} (wf : WF L) {c : CanonCfg} {R : List Ty} (h : Closed L c R) (n k : Nat)
+    {s t : Ty} (ht : t ∈ R) (hwt : wfTy L t = true) (hws : wfTy L s = true)
+    (htb : tbFree t = true) (hsb : tbFree s = true) :
+    Link L c R (n+1) false t s ↔ Link L c R (k+1) true s t :=
+  link_mirror wf h n k ht hwt hws htb hsb
+
+/-- **Mirroring on the whole canon** when neither `Top` nor `Bottom` was requested. -/
+theorem C10_mirror_plain {L : Lang} (wf : WF L) {c : CanonCfg} (hT : c.includeTop = false)
+    (hB : c.includeBottom = false) {listed : List Ty}
+    (hl : ∀ t ∈ listed, wfTy L t = true ∧ tbFree t = true)
+    (term : Terminates L c canonFuel (initOf listed) (initOf listed)) (n k : Nat) {s t : Ty}
+    (hs : s ∈ mkCanon L c listed) (ht : t ∈ mkCanon L c listed) :
+    Link L c (mkCanon L c listed) (n+1) false t s ↔ Link L c (mkCanon L c listed) (k+1) true s t :=
+  mirror_plain wf hT hB hl term n k hs ht
+
+example : Link exL cfg0 canonA 1 false (tF tA) (tF tB) ∧ Link exL cfg0 canonA 1 true (tF tB) (tF tA) := by
+  constructor
+  · unfold Link; simp [show langSucc exL cfg0 canonA 1 false (tF tA) false = [tF tB] from rfl]
+  · unfold Link; simp [show langSucc exL cfg0 canonA 1 true (tF tB) false = [tF tA] from rfl]
+
+/-! ## 5. the known defect: `Top` in the canon -/
+
+/-- **Counterexample to the general statement.** Language `A > B > C`, covariant `F`; `Top` requested;
+listed `[C, F(C)]`. The canon is `{C, F(C), F(Top), Top}` and is closed; `C` is a canonical strict subtype
+of the canonical `Top`, yet `C` is not reachable from `Top` through reported direct-subtype links (with any
+fuel): the only link from `Top` goes to `F(Top)`, which has none. -/
+theorem C10_counterexample_reach (n : Nat) :
+    canonT = [tC, tF tC, tF tTop, tTop] ∧
+    tC ∈ canonT ∧ tTop ∈ canonT ∧ Closed exL cfgT canonT ∧ Sub exL tC tTop ∧ tC ≠ tTop ∧
+      ¬ Reach (Link exL cfgT canonT n false) tTop tC :=
+  ⟨canonT_eq, counterexample_reach n⟩
+
 end Tfv.C10
